@@ -2323,7 +2323,8 @@ evhttp_parse_headers_(struct evhttp_request *req, struct evbuffer* buffer)
 			evutil_rtrim_lws_(skey);
 		}
 
-		svalue += strspn(svalue, " ");
+		/* OWS = *( SP / HTAB ) on both sides of the field value */
+		svalue += strspn(svalue, " \t");
 		evutil_rtrim_lws_(svalue);
 
 		if (evhttp_add_header(headers, skey, svalue) == -1)
